@@ -48,6 +48,9 @@ FHist == {"direct", "batch", "second", "failwrite"}
 FBatchFail == {"direct", "batch", "failwrite"}
 FFaults == {"direct", "batch", "lose", "get"}
 FDirectNoop == {"direct", "noop"}
+FHistNoop == {"direct", "batch", "second", "failwrite", "noop"}
+FBatchFailNoop == {"direct", "batch", "failwrite", "noop"}
+FFaultsNoop == {"direct", "batch", "lose", "get", "noop"}
 FFaultsDirect == {"direct", "lose", "get"}
 
 \* depth bound as a guard of the next-state relation (a state constraint would
@@ -103,6 +106,9 @@ EmitStC08 == PrintT(ToJson([h |-> hist, st |-> ObsC08]))
 EmitStC03 == PrintT(ToJson([h |-> hist, st |-> ObsC03]))
 ObsC07 == [trav |-> TravTable] @@ Obs
 EmitStC07 == PrintT(ToJson([h |-> hist, st |-> ObsC07]))
+EmitC08 == PrintT(ToJson([h |-> hist', st |-> ObsC08']))
+EmitC03 == PrintT(ToJson([h |-> hist', st |-> ObsC03']))
+EmitC07 == PrintT(ToJson([h |-> hist', st |-> ObsC07']))
 EmitC01 == PrintT(ToJson([h |-> hist', st |-> ObsC01']))
 EmitAll == PrintT(ToJson([h |-> hist', st |-> Obs']))
 =============================================================================
